@@ -223,6 +223,10 @@ class KernelRun:
                     need = r.choice([Need.DEFAULT, Need.OPTIONAL])
                 elif k < 0.45:
                     res = {name: r.choice([1, 2, 3]) for name in RESOURCES if r.random() < 0.5}
+                elif k < 0.52:
+                    shell = not shell
+                elif k < 0.58:
+                    ovr = {} if ovr else {r.choice(ENVS + ["OMP"]): r.choice(["1", "2"])}
             else:
                 cmd = r.choice(CMDS) if r.random() < 0.95 or not self.exotic else "x  # wd=y"
                 wd = r.choice(WORKDIRS)
